@@ -420,6 +420,15 @@ static void do_op(struct drv *dv, char *line)
 				print_state();
 			return;
 		}
+		if (dv->sp > 0 && (dv->frames[dv->sp - 1][0] & ~0xffffUL) == 0xdead0000UL) {
+			/* libmcount put the original return address back into the slot (thread finished:
+			 * mtd_dtor -> mcount_rstack_restore): the function returns to its caller, no exit hook */
+			dv->sp--;
+			printf("X - 1\n");
+			if (autostate)
+				print_state();
+			return;
+		}
 		errno = 55;
 		if (have_xmm0)
 			asm volatile("movq %0, %%xmm0" ::"r"(xmm0v) : "xmm0");
